@@ -366,7 +366,7 @@ def contracts(verify_callees=True):
     def forwarded(s, b, names):
         ok = True
         for nm in names:
-            have, got = s.run.cur_env[nm], b.get(nm)
+            have, got = s.run.local(nm), b.get(nm)
             same = (have is got) or (z3.is_expr(have) and z3.is_expr(got) and have.eq(got))
             ok = ok and bool(same)
         return ok
